@@ -7,7 +7,8 @@ The history properties were modelled mechanism by mechanism (scheduler, activato
 needs a fact that another one provides, the fact is a hypothesis of its theorem. This file *composes* some of those pieces, so
 that the hypothesis becomes a consequence.
 
-`active_unit_stays_in_recorded_cell` closes (for motion in the positive direction, exact reading) the history premise of C11's
+`active_unit_stays_in_recorded_cell` (positive direction) and `active_unit_stays_in_recorded_cell_neg` (negative direction, for
+representable coordinates, given the adjacency of the recorded extents) close (exact reading) the history premise of C11's
 `reach_inv` — "the active unit leaves its recorded cell only by a cell-boundary event" — from:
 * **C09** (pending = fresh yield): the cell-boundary candidate of the active unit is among the live candidates of the leg
   (hypothesis `hb`: its time is `time stamp + time to the boundary`, `JF.Occ.timeToBoundary`);
@@ -40,6 +41,34 @@ theorem active_unit_stays_in_recorded_cell (g : Grid) (i : ℕ) (hi : i < g.n) (
     have hlt : val m < val ts + ttb := lt_of_le_of_ne hle hne
     rw [sub_exact]
     exact stays_in_cell_pos g i hi x v bMax hx0 hx1 hv hpos (val m - val ts) (by linarith) (by rw [← httb]; linarith)
+
+/-- The same for motion in the **negative** direction: the cell-boundary handler aims at the lower neighbour's recorded
+`cell_max`; with the adjacency of the recorded extents (`hgap`: no representable scalar between that `cell_max` and the lower
+edge of cell `i`, C16 part D `cells_abut` / `last_cell_reaches_top`) every *representable* time-sliced coordinate at a committed
+time before the crossing is still in the recorded cell (`JF.C11.stays_in_cell_neg`). -/
+theorem active_unit_stays_in_recorded_cell_neg (g : Grid) (i : ℕ) (hi : i < g.n) (hn2 : 2 ≤ g.n) (x v bMin cmaxPrev : ℚ)
+    (hx0 : g.cmin i ≤ x) (hx1 : x < g.cmin (i + 1)) (hv : v < 0)
+    (hc0 : g.cmin ((i + g.n - 1) % g.n) ≤ cmaxPrev) (hc1 : cmaxPrev < g.cmin ((i + g.n - 1) % g.n + 1))
+    (F : ℚ → Prop) (hgap : ∀ y, F y → cmaxPrev < y → g.cmin ((i + g.n - 1) % g.n + 1) ≤ y)
+    (ts : Time ℚ) (hts : Normalised ts)
+    (s s' : Time ℚ × List (Time ℚ)) (hleg : Leg s s')
+    (hnorm : ∀ p ∈ s.2, Normalised p)
+    (hb : Time.add Ops.rat ts (timeToBoundary Ops.rat g.L x v bMin cmaxPrev).1 ∈ s.2)
+    (hge : val ts ≤ val s'.1)
+    (hne : val s'.1 ≠ val ts + (timeToBoundary Ops.rat g.L x v bMin cmaxPrev).1)
+    (hF : F (pywrap Ops.rat (x + v * Time.sub s'.1 ts) g.L)) :
+    g.idx (pywrap Ops.rat (x + v * Time.sub s'.1 ts) g.L) = i := by
+  cases hleg with
+  | mk now m pending removed kept new hm hmin hperm hrem hnew =>
+    set ttb := (timeToBoundary Ops.rat g.L x v bMin cmaxPrev).1 with httb
+    have hle := hmin _ hb
+    have hmn : Normalised m := hnorm m hm
+    have hbn : Normalised (Time.add Ops.rat ts ttb) := add_normalised ts ttb hts
+    rw [le_iff _ _ hmn hbn, add_val] at hle
+    have hlt : val m < val ts + ttb := lt_of_le_of_ne hle hne
+    rw [sub_exact] at hF ⊢
+    exact stays_in_cell_neg g i hi hn2 x v bMin cmaxPrev hx0 hx1 hv hc0 hc1 F hgap (val m - val ts) (by linarith)
+      (by rw [← httb]; linarith) hF
 
 end JF.Links
 
